@@ -382,8 +382,19 @@ def check(c):
             continue
         c.ob('C19.params', f'{swp.fq} :: restore branch for {k}',
              k in branches, c.where(swp.node, swp), '')
+    # the flow counter comes back as the highest number ever recorded,
+    # not the highest among the flows still in the pool (a finished flow's
+    # number would be handed out again)
+    ld = c.func('flow_mgr', 'FlowMgr.load_from_db')
+    cs = c.stores(ld, 'counter')
+    c.floor('C19.flow-counter', f'{ld.fq} :: counter restored', len(cs), 1)
+    for st_ in cs:
+        c.ob('C19.flow-counter', c.key(st_.node, ld) + ' = max flow number '
+             'in the DB', norm(st_.value) == 'self.db_mgr.pri_dao.'
+             'select_workflow_flows_max_flow_num()', c.where(st_.node, ld),
+             norm(st_.value))
     from rules._shared import rewrite_live_source_rules
-    rewrite_live_source_rules(c, 'C19.rewrite-live', single, rewrite)
+    rewrite_live_source_rules(c, 'C19.rewrite-live', single, rewrite, wipe)
     for k in ('KEY_INITIAL_CYCLE_POINT', 'KEY_START_CYCLE_POINT',
               'KEY_FINAL_CYCLE_POINT', 'KEY_RUN_MODE', 'KEY_UTC_MODE',
               'KEY_CYCLE_POINT_TIME_ZONE', 'KEY_UUID_STR'):
